@@ -468,6 +468,7 @@ impl<E: Elem> Interp<E> {
         let okind_exec = { let k = js(st, "okind"); if k.is_empty() { "arr".to_string() } else { k.to_string() } };
         let logged_op = match op {
             "builder_abandon" | "intrusive_abandon" => "generate",
+            "builder_extend" | "intrusive_extend" => "builder_extend",
             "consumer_abandon" => "fold",
             x => x,
         };
@@ -853,6 +854,30 @@ fn exec<E: Elem>(op: &str, vals: &mut Vec<Val<E>>, forms: &[String], arg: i64, m
                 }
                 injected_panic()
             }, bad())
+        }
+        // `extend` of the two builders fed by a scripted (possibly short, possibly panicking) source
+        "builder_extend" | "intrusive_extend" => {
+            let _pre = crate::events::Bypass::new();
+            let script: Vec<u8> = jarr(st, "script").into_iter().map(|x| x as u8).collect();
+            let src = ScriptedIter::<E> { script, pos: 0, hint: Some((0, None)), _p: std::marker::PhantomData };
+            let mut o = Outcome::new();
+            drop(_pre);
+            with_len!(n, N => {
+                use generic_array::internals::{ArrayBuilder, IntrusiveArrayBuilder};
+                unsafe {
+                    if op == "builder_extend" {
+                        let mut b = ArrayBuilder::<E, N>::new();
+                        b.extend(src);
+                        if b.is_full() { o.outs.push(b.assume_init().wrap()) } else { o.err = true; drop(b) }
+                    } else {
+                        let mut arr = GenericArray::<E, N>::uninit();
+                        let mut b = IntrusiveArrayBuilder::new(&mut arr);
+                        b.extend(src);
+                        if b.is_full() { b.finish(); o.outs.push(IntrusiveArrayBuilder::array_assume_init(arr).wrap()) } else { o.err = true; drop(b) }
+                    }
+                }
+            }, bad());
+            o
         }
         "consumer_abandon" => {
             // takes `arg` elements out of an ArrayConsumer (they stay with the caller), then drops it
